@@ -7,7 +7,7 @@
 //!
 //! usage: timer_driver search <scenarios> <seed>     exit 0 = no mismatch, 3 = mismatch (JSON on stdout)
 use des::prelude::*;
-use des::time::{interval, sleep, sleep_until, timeout, MissedTickBehavior};
+use des::time::{interval, interval_at, sleep, sleep_until, timeout, timeout_at, MissedTickBehavior};
 use std::future::Future;
 use std::pin::Pin;
 use std::sync::Mutex;
@@ -22,6 +22,10 @@ enum Op {
     TimeoutSleep(u64, u64),
     TimeoutPending(u64),
     Interval(u64, u8, Vec<u64>), // period, behaviour (0 burst, 1 delay, 2 skip), work after each tick
+    TimeoutAt(u64, u64),         // timeout_at(absolute deadline, sleep(d))
+    IntervalAt(u64, u64, usize), // interval_at(absolute start, period): k ticks without work in between
+    IntervalReset(u64, u64),     // interval(p): first tick, sleep(w), reset(), next tick is due one period after the reset
+    Abort(u64, u64),             // spawn a sub-task that sleeps d and then logs; abort it after sleeping d0 < d: it must never log
     Debounce(u64, u64),          // only as a whole task: sleep(d0) that every self-message of the module resets to now + d (d = 2 mod 10)
 }
 
@@ -69,6 +73,26 @@ async fn run_task(m: usize, t: usize, prog: Vec<Op>, mut rx: tokio::sync::mpsc::
             }
             Op::TimeoutSleep(dt, di) => { let r = timeout(ms(dt), sleep(ms(di))).await; log(m, t, i, "timeout_sleep", r.is_ok() as i64); }
             Op::TimeoutPending(dt) => { let r = timeout(ms(dt), std::future::pending::<()>()).await; log(m, t, i, "timeout_pending", r.is_ok() as i64); }
+            Op::TimeoutAt(x, di) => { let r = timeout_at(at(x), sleep(ms(di))).await; log(m, t, i, "timeout_at", r.is_ok() as i64); }
+            Op::IntervalAt(x, p, k) => {
+                let mut iv = interval_at(at(x), ms(p));
+                for _ in 0..k { let scheduled = iv.tick().await; log(m, t, i, "tick_at", scheduled.as_millis() as i64); }
+            }
+            Op::IntervalReset(p, w) => {
+                let mut iv = interval(ms(p));
+                let s0 = iv.tick().await;
+                log(m, t, i, "tick", s0.as_millis() as i64);
+                sleep(ms(w)).await;
+                iv.reset();
+                let s1 = iv.tick().await;
+                log(m, t, i, "tick_after_reset", s1.as_millis() as i64);
+            }
+            Op::Abort(d0, d) => {
+                let h = tokio::spawn(async move { sleep(ms(d)).await; log(m, t, i, "ABORTED-TASK-RAN", 0); });
+                sleep(ms(d0)).await;
+                h.abort();
+                log(m, t, i, "aborted", 0);
+            }
             Op::Interval(p, b, work) => {
                 let mut iv = interval(ms(p));
                 iv.set_missed_tick_behavior(match b { 0 => MissedTickBehavior::Burst, 1 => MissedTickBehavior::Delay, _ => MissedTickBehavior::Skip });
@@ -103,6 +127,19 @@ fn expect_task(m: usize, t: usize, prog: &[Op], pings: &[u64]) -> Vec<(usize, us
             Op::Reset(_, d2) => { now += d2; out.push((m, t, i, "reset", 0, now)); }
             Op::TimeoutSleep(dt, di) => { let ok = di <= dt; now += (*dt).min(*di); out.push((m, t, i, "timeout_sleep", ok as i64, now)); }
             Op::TimeoutPending(dt) => { now += dt; out.push((m, t, i, "timeout_pending", 0, now)); }
+            Op::TimeoutAt(x, di) => { let dl = (*x).max(now); let fin = now + di; let ok = fin <= dl; now = if ok { fin } else { dl }; out.push((m, t, i, "timeout_at", ok as i64, now)); }
+            Op::IntervalAt(x, p, k) => {
+                let mut scheduled = *x;
+                for _ in 0..*k { now = now.max(scheduled); out.push((m, t, i, "tick_at", scheduled as i64, now)); scheduled += p; }
+            }
+            Op::IntervalReset(p, w) => {
+                out.push((m, t, i, "tick", now as i64, now));
+                now += w;
+                let due = now + p;
+                now = due;
+                out.push((m, t, i, "tick_after_reset", due as i64, now));
+            }
+            Op::Abort(d0, _) => { now += d0; out.push((m, t, i, "aborted", 0, now)); }
             Op::Interval(p, b, work) => {
                 let mut scheduled = now;
                 for w in work.iter() {
@@ -142,7 +179,11 @@ fn gen_prog(r: &mut dyn FnMut() -> u64) -> Vec<Op> {
     if r() % 5 == 0 { return vec![Op::Debounce(10 + (r() % 5) * 10, 2 + (r() % 5) * 10)]; }
     let n = 1 + (r() % 5) as usize;
     let d = |r: &mut dyn FnMut() -> u64| (r() % 6) * 10;
-    (0..n).map(|_| match r() % 9 {
+    (0..n).map(|_| match r() % 13 {
+        9 => Op::TimeoutAt((r() % 12) * 10, d(r)),
+        10 => Op::IntervalAt((r() % 8) * 10, 10 + (r() % 3) * 10, 1 + (r() % 3) as usize),
+        11 => Op::IntervalReset(10 + (r() % 3) * 10, (r() % 4) * 10),
+        12 => { let d0 = d(r); Op::Abort(d0, d0 + 10 + d(r)) }
         0 | 1 => Op::Sleep(d(r)),
         2 => Op::SleepUntil((r() % 12) * 10),
         3 | 4 => Op::PollDrop(d(r)),
